@@ -14,6 +14,7 @@ import (
 	"crypto/sha256"
 	"encoding/binary"
 	"fmt"
+	"io"
 	"runtime"
 	"sort"
 	"strings"
@@ -42,6 +43,7 @@ import (
 	"github.com/google/uuid"
 	"github.com/prysmaticlabs/go-bitfield"
 	"github.com/rs/zerolog"
+	zerologger "github.com/rs/zerolog/log"
 	e2types "github.com/wealdtech/go-eth2-types/v2"
 	e2wtypes "github.com/wealdtech/go-eth2-wallet-types/v2"
 	"pgregory.net/rapid"
@@ -97,6 +99,8 @@ type Case struct {
 	// controller's start-up until the attestation jobs of both epochs have run (only in
 	// histories without duty change / failing re-subscription).
 	SlowSubmit bool `json:"slow_submit,omitempty"`
+	// LogLevel of subscriber, aggregator and controller: "" (disabled) | "info" | "debug" | "trace".
+	LogLevel string `json:"log_level,omitempty"`
 }
 
 func (c *Case) concurrency() int64 {
@@ -551,6 +555,37 @@ func (s specProvider) Spec(context.Context, *api.SpecOpts) (*api.Response[map[st
 }
 
 // ---------------------------------------------------------------------------
+// Logging: vouch's services take their logger from the zerolog global logger;
+// it writes to io.Discard in this process, and the level is drawn per case so
+// that code inside "if e := log.Trace(); e.Enabled()" guards really executes.
+
+func init() { zerologger.Logger = zerolog.New(io.Discard) }
+
+func levelOf(s string) zerolog.Level {
+	switch s {
+	case "trace":
+		return zerolog.TraceLevel
+	case "debug":
+		return zerolog.DebugLevel
+	case "info":
+		return zerolog.InfoLevel
+	}
+	return zerolog.Disabled
+}
+
+// useLogLevel sets zerolog's global level for the case (cases of one process run
+// one after the other) and returns the level for WithLogLevel and a restore func.
+func useLogLevel(s string) (zerolog.Level, func()) {
+	lvl := levelOf(s)
+	zerolog.SetGlobalLevel(lvl)
+	return lvl, func() { zerolog.SetGlobalLevel(zerolog.Disabled) }
+}
+
+func genLogLevel(t *rapid.T) string {
+	return rapid.SampledFrom([]string{"", "", "info", "debug", "trace", "trace"}).Draw(t, "logLevel")
+}
+
+// ---------------------------------------------------------------------------
 // Generator
 
 func genEpochDuties(t *rapid.T, c *Case, epoch uint64, slots []uint64, usedV map[uint64]bool) {
@@ -689,6 +724,7 @@ func genCase(t *rapid.T) Case {
 	if c.Reorg == nil && c.Refail == nil {
 		c.SlowSubmit = rapid.IntRange(0, 2).Draw(t, "slowSubmit") == 0
 	}
+	c.LogLevel = genLogLevel(t)
 	return c
 }
 
@@ -1008,7 +1044,7 @@ func newEnv(ctx context.Context, c *Case) (*env, error) {
 	sort.Slice(e.acc.cur, func(i, j int) bool { return e.acc.cur[i] < e.acc.cur[j] })
 	sort.Slice(e.acc.next, func(i, j int) bool { return e.acc.next[i] < e.acc.next[j] })
 	agg, err := standardaggregator.New(ctx,
-		standardaggregator.WithLogLevel(zerolog.Disabled),
+		standardaggregator.WithLogLevel(levelOf(c.LogLevel)),
 		standardaggregator.WithMonitor(nullmetrics.New()),
 		standardaggregator.WithSpecProvider(specProvider{c.SlotsPerEpoch, c.Target}),
 		standardaggregator.WithChainTime(e.clock),
@@ -1027,7 +1063,7 @@ func newEnv(ctx context.Context, c *Case) (*env, error) {
 
 func (e *env) newSubscriber(ctx context.Context, sub *subsSubmitter, fail *flag) (*standardsubscriber.Service, error) {
 	return standardsubscriber.New(ctx,
-		standardsubscriber.WithLogLevel(zerolog.Disabled),
+		standardsubscriber.WithLogLevel(levelOf(e.c.LogLevel)),
 		standardsubscriber.WithMonitor(nullmetrics.New()),
 		standardsubscriber.WithProcessConcurrency(e.c.concurrency()),
 		standardsubscriber.WithChainTimeService(e.clock),
@@ -1307,7 +1343,8 @@ func (e *env) judgeSubscriptionsAt(who string, epoch uint64, subs []*apiv1.Beaco
 func runAndJudge(c *Case) (string, []judgement, stats) {
 	var st stats
 	var js []judgement
-	zerolog.SetGlobalLevel(zerolog.Disabled)
+	lvl, restoreLog := useLogLevel(c.LogLevel)
+	defer restoreLog()
 	if err := validCase(c); err != nil {
 		return err.Error(), nil, st
 	}
@@ -1417,7 +1454,7 @@ func runAndJudge(c *Case) (string, []judgement, stats) {
 	spy := &spyAggregator{real: e.realAgg}
 	aggDelay := 8 * time.Second
 	ctrl, err := standardcontroller.New(ctx,
-		standardcontroller.WithLogLevel(zerolog.Disabled),
+		standardcontroller.WithLogLevel(lvl),
 		standardcontroller.WithMonitor(nullmetrics.New()),
 		standardcontroller.WithSpecProvider(specProvider{c.SlotsPerEpoch, c.Target}),
 		standardcontroller.WithChainTimeService(e.clock),
@@ -1727,7 +1764,7 @@ func check(t ev.TB, c *Case) {
 	if st.activationAtNextEpoch {
 		labels = append(labels, "validator-active-only-from-next-epoch")
 	}
-	labels = append(labels, fmt.Sprintf("process-concurrency-%d", c.concurrency()))
+	labels = append(labels, fmt.Sprintf("process-concurrency-%d", c.concurrency()), "log-level-"+levelOf(c.LogLevel).String())
 	if st.failedRefreshWithChange {
 		labels = append(labels, "duty-change-whose-re-subscription-fails")
 	}
